@@ -70,7 +70,11 @@ type Tracer struct {
 	maxUs   int32
 	rnd     uint64
 	counts  sync.Map // point -> *int64
+	slow    sync.Map // point -> time.Duration
 }
+
+// SlowPoint makes every passage of a hook point sleep for d (widens the window after it).
+func (t *Tracer) SlowPoint(point string, d time.Duration) { t.slow.Store(point, d) }
 
 // NewTracer creates a tracer; record=false keeps only counts.
 func NewTracer(record bool) *Tracer {
@@ -228,6 +232,9 @@ func (t *Tracer) Handle(point, id string) {
 		g.mu.Lock()
 		g.waiting = false
 		g.mu.Unlock()
+	}
+	if d, ok := t.slow.Load(point); ok {
+		time.Sleep(d.(time.Duration))
 	}
 	if p := atomic.LoadInt32(&t.perturb); p > 0 {
 		r := t.next()
